@@ -172,7 +172,13 @@ func runSigopLimit(k *mon.Case) {
 
 func runCase(k *mon.Case) {
 	r := k.Rand
-	g := chaingen.New(node.NewParams(node.FamRegtest), node.FamRegtest, r)
+	// one case in four runs on the family with the 20-minute minimum-difficulty exception and a genesis 16x harder than
+	// the limit: the required bits of a template then depend on its timestamp (UpdateBlockTime must follow)
+	fam := node.FamRegtest
+	if r.Chance(1, 4) {
+		fam = node.FamVarWork
+	}
+	g := chaingen.New(node.NewParams(fam), fam, r)
 	g.MaxTx = 4
 	mp := node.DefaultMemPolicy()
 	mp.MinRelayTxFee = 0 // let zero-fee transactions into the pool: the priority area is part of the quantifier
@@ -187,7 +193,7 @@ func runCase(k *mon.Case) {
 	if r.Chance(1, 2) {
 		ps.PayScript = g.Script([]chaingen.Kind{chaingen.KP2PKH, chaingen.KP2PK, chaingen.KP2WPKH, chaingen.KP2TR, chaingen.KP2SHTrue}[r.Intn(5)], r.Intn(4), r)
 	}
-	k.Desc(map[string]any{"policy": pol, "pay_script": ps.PayScript})
+	k.Desc(map[string]any{"policy": pol, "pay_script": ps.PayScript, "family": fam})
 	ps.Base(16 + r.Intn(8))
 	rounds := 6 + r.Intn(6)
 	for i := 0; i < rounds && !ps.Failed; i++ {
@@ -271,6 +277,7 @@ func main() {
 		c.Family("sigoplimit", c.N(28, 1500), runSigopLimit)
 		c.Require("sigoplimit.pools", 20)
 		c.Require("template.pay_address", 100)
+		c.Require("template.update_time_across_min_difficulty_boundary", 5)
 		c.Require("template.sigops_at_limit", 3)
 		c.Require("template.mined", 1000)
 		c.Require("template.with_witness", 100)
